@@ -17,7 +17,7 @@ TRUSTED = ["text layer of names (split('.'), UTF-8 encode/decode, join) is glue 
 ASSUMPTIONS = ["names are handed to the builder as str; labels are compared as UTF-8 bytes"]
 
 # staged features (switched on by the commits that bring the model side / the known-findings entry)
-SEND_PATH = False    # C14: follow the datagrams through Zeroconf.async_send (needs the driver command `sendlens`)
+SEND_PATH = True     # C14: follow the datagrams through Zeroconf.async_send (needs the driver command `sendlens`)
 RETRY_CHECK = False  # packets() again on a builder that rejected the message
 
 EXC = {"NamePartTooLongException": "NamePartTooLongException", "IndexError": "IndexError", "error": "struct.error", "ValueError": "ValueError"}
